@@ -2534,8 +2534,17 @@ fn main() {
         }
     }
     // uninterceptable path queries (Path::exists etc.) then hit the same tree the image was loaded from
+    // (file arguments are taken relative to where the command was started)
+    let started_in = std::env::current_dir().ok();
     let _ = std::env::set_current_dir(REPO_CRATE);
-    let a = parse_args();
+    let mut a = parse_args();
+    if let Some(dir) = &started_in {
+        for f in a.pos.iter_mut() {
+            if Path::new(f.as_str()).is_relative() && dir.join(f.as_str()).exists() {
+                *f = dir.join(f.as_str()).display().to_string();
+            }
+        }
+    }
     let code = match a.cmd.as_str() {
         "check" => cmd_check(&a),
         "replay" => cmd_replay(&a),
